@@ -141,7 +141,7 @@ def _id_of_current_storage(prog, f: FuncInfo, cfg, expr: ast.AST, at, obj: str, 
 def run(ctx) -> None:
     ctx.rule("a.bracket", "every store to <obj>._underlying on a possibly registered object is preceded on every path by "
                           "unregister(obj, id(<storage current at the swap>)) and followed on every path to exit by "
-                          "register(obj, id(<the stored tuple>))", 5)
+                          "register(obj, id(<the stored tuple>))", 2)
     ctx.rule("b.no-reinit", "no __new__ returns an already initialised object of the hierarchy unless the __init__ that "
                             "Python re-runs starts with an already-initialised guard", 1)
     ctx.rule("c.register-last", "Vector.__init__ registers exactly once, after the storage is stored, under id(self._underlying)", 1)
